@@ -105,9 +105,20 @@ def pairing(ctx):
     for (st, tgt, val, op) in ends:
       ok, why = _paired(fi, st, tgt, val, op, totals)
       if not ok:
-        tests = [norm_text(t) for (t, pol) in U.enclosing_tests(fi.node, st) if pol]
+        tnodes = [t for (t, pol) in U.path_conditions(fi.node, st) if pol]
+        tests = [norm_text(t) for t in tnodes]
+
+        def mentions(needle):
+          """the module constant is named in a test, or a test compares for equality with the number it folds to"""
+          if any(needle in t for t in tests):
+            return True
+          from sa import nf as _nf
+          v = _nf.GLOBAL_CONSTS.get(needle)
+          return v is not None and any(isinstance(c, ast.Compare) and len(c.ops) == 1 and isinstance(c.ops[0], ast.Eq) and
+                                       any(U.const_value(x) == v and not isinstance(U.const_value(x), bool) for x in (c.left, c.comparators[0]))
+                                       for t in tnodes for c in ast.walk(t))
         for (fn, txt, needle, reason) in PAIR_ALLOW:
-          if fn == name and (txt is None or norm_text(st) == txt) and any(needle in t for t in tests):
+          if fn == name and (txt is None or norm_text(st) == txt) and mentions(needle):
             ok, why = True, 'allow-listed: ' + reason
             break
       ctx.ob('PAIR/end-total', fi, st, ok, why)
